@@ -73,14 +73,14 @@ CHECKS["C01"] = dict(
         "exhausted workers, _take_snapshot with its alignment assertion, state_dict, construction from a state dict incl. fast-forward) parameterised by an explicit result-arrival SCHEDULE. "
         "PROVED in Coq (Properties_C01.v, SdlMapProofs.v) for map-style datasets, every configuration, every snapshot interval, every interruption point k and EVERY pair of arrival schedules: "
         "state_dict() after k batches loaded into a new iterator yields exactly batches k, k+1, ... then StopIteration; closed under chains of checkpoint/resume of any length (the resumed "
-        "state is again a 'good' state at the same absolute position). ITERABLE datasets (SdlIterProofs.v, SdlIterResume.v): proved for every configuration and every pair of arrival schedules "
-        "when snapshot_every_n_steps=0 (C01_iter_resume_exact_no_snapshots); for EVERY interval the main-process side of a resume is proved exact for every arrival schedule given the worker "
+        "state is again a 'good' state at the same absolute position). ITERABLE datasets (SdlIterProofs.v, SdlIterResume.v): proved for every configuration, every k and every pair of arrival schedules "
+        "when snapshot_every_n_steps is 1 — the default — (C01_iter_resume_exact_every_step) or 0 (C01_iter_resume_exact_no_snapshots); for EVERY interval the main-process side of a resume is proved exact for every arrival schedule given the worker "
         "entries of the state dict (C01_iter_resume_main_exact), and every worker entry a run writes is proved to be the state after the answer to an already handed-out task "
-        "(C05_iter_checkpoint_never_ahead); that these entries are the LAST such states for intervals >= 1 remains the target (small-scope theorem + correspondence). Tied to the code "
+        "(C05_iter_checkpoint_never_ahead); that these entries are the LAST such states at boundaries of intervals >= 2 remains the target (small-scope theorem + correspondence). Tied to the code "
         "on every run by lockstep correspondence with REAL worker processes driven through the same arrival schedule (batch, main-process bookkeeping and abstracted state_dict() after every "
         "next(); checkpoint/resume chains at every k) and by the direct oracle resumed == uninterrupted suffix incl. the following epoch (also num_workers=0, persistent workers, shuffle, stateful samplers).",
    design="DESIGN.md 4 C01",
-   note="Proof scope: map-style without failing indices (all I, W, P, schedules, k, chains); iterable datasets: interval 0 in full, intervals >= 1 main-process side + never-ahead entries; "
+   note="Proof scope: map-style without failing indices (all I, W, P, schedules, k, chains); iterable datasets: intervals 0 and 1 (default) in full, intervals >= 2 main-process side + never-ahead entries; "
         "num_workers=0, persistent workers and shuffle are covered by correspondence/oracle, not by a theorem (partial in that sense). Trusted: Coq kernel + vm_compute; the arrival-scheduling multiprocessing context; harness datasets (user contract: load_state_dict(state_dict()) "
         "restores the position before exhaustion); known finding D13 matched specifically.",
    technique="Coq proof over hand-written Gallina model + lockstep correspondence under scheduled arrival (vm_compute) + direct oracle")
